@@ -24,6 +24,11 @@ def check(ix, rep):
                 fs.append(g)
     nt = truthy.check_functions(ix, rep, fs, 'discrete-online')
     rep.floor('update() methods checked for truth-value use of robustness', nt, 28)
+    de = ix.resolve_method(on.cls, 'set_variable_to_ast_from_dataset')
+    if de is None:
+        raise AnalysisError('data-entry function of the online monitor vanished')
+    rep.analysed(de)
+    truthy.check_data_entry(ix, rep, de, 'discrete-online')
     # 3. construction and update visitors are exhaustive
     cells = exh.exh_monitor(ix, rep, on)
     rep.floor('dispatch cells of the online construction visitor', cells, 39)
